@@ -249,8 +249,9 @@ class ExprGen:
       b, _ = self.nc(w, depth - 2)
       if op in ('>>', '<<') and w > 1: c = rng.choice([str(rng.randint(1, min(3, w - 1))), self.nc(w, 0)[0]])
       else: c = self.nc(w, depth - 2)[0] if rng.random() < 0.7 else self.int_operand(w)
-      self.scope.features.add('same-op-nested-' + {'-': 'sub', '>>': 'shr', '<<': 'shl', '+': 'add', '^': 'xor'}[op]) if hasattr(self.scope, 'features') else None
-      if rng.random() < 0.75: return f'({a} {op} ({b} {op} {c}))', 'cmpd'
+      right = rng.random() < 0.75
+      self.opts.setdefault('_features', set()).add(('same-op-right-nested-' if right else 'same-op-left-nested-') + {'-': 'sub', '>>': 'shr', '<<': 'shl', '+': 'add', '^': 'xor'}[op])
+      if right: return f'({a} {op} ({b} {op} {c}))', 'cmpd'
       return f'(({a} {op} {b}) {op} {c})', 'cmpd'
     if k < 0.42:
       op = rng.choice(['<<', '>>'])
@@ -350,6 +351,7 @@ class DesignGen:
     self.ifc_classes = {}
     self.nifc_decls = []       # texts of the generated (nested) interface classes, inner ones first
     self.features = set()
+    self.opts['_features'] = self.features          # expression generators record their shapes here
     self.uid = 0
 
   # -------------------------------------------------------------- data types
@@ -1275,7 +1277,8 @@ def gen_finding(rng, be, fid):
     for k, op in enumerate(ops):
       right = k < 4 or rng.random() < 0.5
       body.append(f'      s.o{k} @= s.a {op} ( s.b {op} s.c )' if right else f'      s.o{k} @= ( s.a {op} s.b ) {op} s.c')
-    L += ['    @update', '    def up():'] + body + ['    @update_ff', '    def ff():', f"      s.o{len(ops)} <<= s.o{len(ops)} {rng.choice(['-', '>>'])} ( s.a {'-' if body else ''} ( s.b - s.c ) )".replace(">> ( s.a - (", ">> ( s.a >> (").replace('( s.b - s.c ) )', '( s.b - s.c ) )')]
+    r_ = f's.o{len(ops)}'
+    L += ['    @update', '    def up():'] + body + ['    @update_ff', '    def ff():', rng.choice([f'      {r_} <<= s.a - ( s.b - {r_} )', f'      {r_} <<= s.a >> ( s.b >> s.c )', f'      {r_} <<= ( {r_} | 1 ) << ( s.c << s.c )'])]
     # operand values: c >= 2, b = c*q + r with 0 < r < c (so that b % c != 0: no division by zero anywhere), small shift amounts
     fixed_cycles = []
     for _ in range(5):
